@@ -86,6 +86,9 @@ MISSED = {
     "C10-16": "the device under test never cached a client's I-Am; `known_client` added",
     "C10-17": "the concurrent valid request always had another invoke ID; `same_id_clients` added",
     "C10-18": "network-layer noise was unicast only (and type 0x12 in the thorough tier only); broadcast flag and more types added",
+    "C08-9": "station addresses longer than 7 octets were in the thorough tier only; 19 and 255 octets added to quick",
+    "C20-9": "every harness runs in UTC, where the daylight-saving field of the broken-down time makes no difference; `mktime_args` "
+             "checks the tuple handed to mktime",
     "C10-5": "no frame carried a source network; `routed_noise` (garbage claiming a remote source, then a relayed valid request) added",
 }
 
